@@ -95,7 +95,7 @@ def gen_plan(seed: int, run: int, tier: str) -> dict:
         "chunked_write": rng.random() < 0.4,
         "grace_period": 30,
         "snapshot_interval": rng.choice([2, 2, 3, 5]),
-        "split_seed": rng.getrandbits(30),
+        "split_seed": rng.getrandbits(30),        "pickled_clients": rng.random() < 0.3,
     }
     return {"check": ID, "seed": seed, "run": run, "cfg": cfg, "setup": setup, "tasks": tasks, "sched": {"seed": rng.getrandbits(48)}}
 
